@@ -50,6 +50,7 @@ class State:
         self.init_assigned = None  # set of field names assigned (when verifying __init__)
         self.notes = ()
         self.closed_arrays = ()   # (heap array term, field type, alloc bound): refs stored in it are < bound
+        self.model = None         # (z3 model, len(pc), len(facts)) of the last successful feasibility check
 
     def copy(self):
         s = State.__new__(State)
@@ -68,6 +69,7 @@ class State:
         s.init_assigned = None if self.init_assigned is None else set(self.init_assigned)
         s.notes = self.notes
         s.closed_arrays = self.closed_arrays
+        s.model = self.model
         return s
 
     def assume(self, term):
@@ -92,7 +94,17 @@ class State:
         return h[:10]
 
 
+_hq_cache = {}
+
+
 def has_quantifier(t):
+    k = t.get_id()
+    if k not in _hq_cache:
+        _hq_cache[k] = (_has_quantifier(t), t)       # (the term is kept alive: ids stay unique)
+    return _hq_cache[k][0]
+
+
+def _has_quantifier(t):
     todo = [t]
     seen = set()
     while todo:
